@@ -24,6 +24,9 @@ type session struct {
 	name   string
 	real   *realFile
 	models []*mModel
+	// pendingF3: a memory/file difference that consists only of retraction rationales in a file with a
+	// commented retract block (known finding F3), kept until the end of the run
+	pendingF3 string
 }
 
 const maxCandidates = 48
@@ -169,13 +172,17 @@ func modCheck(res *core.Result, prop string, s *session, when string, history []
 		var firstFail func()
 		var keep []*mModel
 		for _, m := range s.models {
-			if fail := c08Judge(m, p, parsed, s.name, when, out, hist); fail != nil {
+			note := ""
+			if fail := c08Judge(m, p, parsed, s.name, when, out, hist, &note); fail != nil {
 				if firstFail == nil {
 					firstFail = func() { fail(res) }
 				}
 				continue
 			}
 			keep = append(keep, m)
+			if note != "" && s.pendingF3 == "" {
+				s.pendingF3 = note
+			}
 		}
 		if len(keep) == 0 {
 			firstFail()
@@ -192,6 +199,15 @@ func modCheck(res *core.Result, prop string, s *session, when string, history []
 			return p
 		}
 		if d := diffLists(mem.canonList(), parsed.canonList()); d != "" {
+			// Known finding F3: in a file with a commented retract block the rationale held in memory and
+			// the rationale a reader of the file sees can differ. It is reported at the end of the run and
+			// only if nothing else is wrong, so that it does not hide other violations in such files.
+			if len(s.models) > 0 && s.models[0].looseRationale && diffLists(stripRationale(mem.canonList()), stripRationale(parsed.canonList())) == "" {
+				if s.pendingF3 == "" {
+					s.pendingF3 = fmt.Sprintf("%s %s: (- memory only, + file only) %s\nfile:\n%s\nhistory: %s", s.name, when, d, clipText(out), hist)
+				}
+				return p
+			}
 			res.Fail("C15", "memory-equals-file", "the in-memory lists differ from a strict parse of the formatted file", "%s %s: (- memory only, + file only) %s\nfile:\n%s\nhistory: %s", s.name, when, d, clipText(out), hist)
 			return p
 		}
@@ -199,10 +215,30 @@ func modCheck(res *core.Result, prop string, s *session, when string, history []
 	return p
 }
 
+// stripRationale replaces the rationale of retractions in a canonical list.
+func stripRationale(l []string) []string {
+	out := make([]string, len(l))
+	for i, x := range l {
+		if f := strings.Split(x, "|"); len(f) >= 4 && f[0] == "retract" {
+			f[3] = "(rationale not compared)"
+			x = strings.Join(f, "|")
+		}
+		out[i] = x
+	}
+	return out
+}
+
 // c08Judge compares the strictly re-parsed file with one candidate model. It returns nil if they agree,
 // otherwise a function that records the violation.
-func c08Judge(model *mModel, p *realFile, parsed *mModel, name, when string, out []byte, hist string) func(res *core.Result) {
-	if d := diffLists(model.canonList(), parsed.canonList()); d != "" {
+func c08Judge(model *mModel, p *realFile, parsed *mModel, name, when string, out []byte, hist string, rationaleNote *string) func(res *core.Result) {
+	ml, pl := model.canonList(), parsed.canonList()
+	if model.looseRationale {
+		if full := diffLists(ml, pl); full != "" && diffLists(stripRationale(ml), stripRationale(pl)) == "" && rationaleNote != nil && *rationaleNote == "" {
+			*rationaleNote = fmt.Sprintf("%s %s: (- model only, + file only) %s\nfile:\n%s\nhistory: %s", name, when, full, clipText(out), hist)
+		}
+		ml, pl = stripRationale(ml), stripRationale(pl)
+	}
+	if d := diffLists(ml, pl); d != "" {
 		return func(res *core.Result) {
 			res.Fail("C08", "directives-equal-model", "the file's directives differ from the set/map model", "%s %s: (- model only, + file only) %s\nfile:\n%s\nhistory: %s", name, when, d, clipText(out), hist)
 		}
@@ -226,7 +262,7 @@ func c08Judge(model *mModel, p *realFile, parsed *mModel, name, when string, out
 			return func(res *core.Result) {
 				res.Fail("C08", "untargeted-line-survives", "a directive line that no operation targeted lost its end-of-line comment or disappeared", "%s %s: line #%d (%s) not found with its end-of-line comment\nfile:\n%s\nhistory: %s", name, when, e.id, e.canon(), clipText(out), hist)
 			}
-		case pe.canon() != e.canon():
+		case pe.canon() != e.canon() && !(model.looseRationale && e.kind == "retract" && pe.a == e.a && pe.b == e.b):
 			return func(res *core.Result) {
 				res.Fail("C08", "untargeted-line-survives", "a directive line that no operation targeted changed", "%s %s: line #%d was %s and is now %s\nhistory: %s", name, when, e.id, e.canon(), pe.canon(), hist)
 			}
@@ -413,6 +449,22 @@ func runModSession(src *choice.Src, prop string) *core.Result {
 		outA, outB := handOut(A.real.format()), handOut(B.real.format())
 		modCheck(res, prop, A, "at the end", history, outA)
 		modCheck(res, prop, B, "at the end", history, outB)
+	}
+	if res.Violation == nil && prop == "C08" {
+		for _, s := range []*session{A, B} {
+			if s.pendingF3 != "" {
+				res.Fail("C08", "retract-rationale-equals-model", "the rationale of a retraction in the formatted file is not the one the operations gave it (commented retract block)", "%s", s.pendingF3)
+				break
+			}
+		}
+	}
+	if res.Violation == nil && prop == "C15" {
+		for _, s := range []*session{A, B} {
+			if s.pendingF3 != "" {
+				res.Fail("C15", "retract-rationale-memory-equals-file", "the rationale of a retraction in memory differs from the rationale a strict parse of the formatted file yields (commented retract block)", "%s", s.pendingF3)
+				break
+			}
+		}
 	}
 	// bytes handed out by Format belong to the caller: what was written out earlier still reads the same
 	if res.Violation == nil && prop == "C08" {
